@@ -488,15 +488,24 @@ def tpl_observed(ch):
         mstack = ch.pick([st for st in MOD_STACKS if not any('posoargs' in d for d in st)], 'mstack')
         mdeco = ''.join('    @{0}\n'.format(d) for d in mstack)
         tsep = ', ' if inner else ''
-        src += ('class ObsMeta(type):\n' + _OBS_BODY.format(base='type') + '\n'
+        src += ('def hook0({inner}):\n    return "hook0"\n\n'
+                'class ObsMeta(type):\n' + _OBS_BODY.format(base='type') +
+                '    def __new__(mcs, name, bases, ns, **kw):\n        return type.__new__(mcs, name, bases, ns)\n\n'
                 'class K(object, metaclass=ObsMeta):\n' + obs +
+                '    @specifiers.forwards_to_function(hook0, emulate=True)\n'
+                '    def __init_subclass__(cls, {shape}):\n        hook0(*{va}, **{vk})\n'
+                '    @specifiers.forwards_to_method("t", emulate=True)\n'
+                '    def fe(self, {shape}):\n        return self.t(*{va}, **{vk})\n'
+                '    @specifiers.forwards_to_method("fe")\n'
+                '    def ffe(self, {shape}):\n        return self.fe(*{va}, **{vk})\n'
                 '    def t(self{tsep}{inner}):\n        return "t"\n'
                 '{mdeco}    def m(self, a, b=0, c=1, *args, **kwargs):\n        return self.t(*args, **kwargs)\n'
                 '    @specifiers.forwards_to_method("t")\n'
                 '    def fm(self, {shape}):\n        return self.t(*{va}, **{vk})\n\n'
                 'k = K()\nk2 = K()\n'
                 ).format(tsep=tsep, inner=inner, mdeco=mdeco, shape=shape[0], va=shape[1], vk=shape[2])
-        subjects = {'k.m': 'k.m', 'K.m': 'K.m', 'k.fm': 'k.fm', 'K.fm': 'K.fm', 'k2.m': 'k2.m', 'K': 'K'}
+        subjects = {'k.m': 'k.m', 'K.m': 'K.m', 'k.fm': 'k.fm', 'K.fm': 'K.fm', 'k2.m': 'k2.m', 'K': 'K',
+                    'K.__init_subclass__': 'K.__init_subclass__', 'k.fe': 'k.fe', 'k.ffe': 'k.ffe'}
     return dict(template='observed', params=dict(kind=kind, inner=inner, shape=shape[0], src_len=len(src)), source=src,
                 subjects=subjects, tags={'observed', 'wrapped'})
 
@@ -534,7 +543,27 @@ def tpl_instdep(ch):
                 subjects=subjects, tags={'modifiers', 'forger', 'asforged'})
 
 
+def tpl_chain(ch):
+    """Delegation through a chain of objects sharing one forwarding method: discovery re-enters
+    that one function once per link, each time with another known `self`."""
+    depth = 3 + ch.draw(4, 'chain-depth')
+    end = draw_inner(ch)
+    esep = ', ' if end else ''
+    src = (HEADER +
+           'class End(object):\n    def run(self{esep}{end}):\n        return "end"\n\n'
+           'class Link(object):\n    def __init__(self, nxt):\n        self.nxt = nxt\n'
+           '    def run(self, *args, **kwargs):\n        return self.nxt.run(*args, **kwargs)\n\n'
+           'def make(n):\n    o = End()\n    for _ in range(n):\n        o = Link(o)\n    return o\n\n'
+           'chain_a = make({depth})\nchain_b = make({depth})\nshort = make(1)\n'
+           ).format(esep=esep, end=end, depth=depth)
+    subjects = {'chain_a.run': 'chain_a.run', 'chain_b.run': 'chain_b.run', 'short.run': 'short.run',
+                'Link.run': 'Link.run'}
+    return dict(template='chain', params=dict(depth=depth, end=end), source=src, subjects=subjects,
+                tags={'chain'})
+
+
 TEMPLATES = {
+    'chain': tpl_chain,
     'instdep': tpl_instdep,
     'observed': tpl_observed,
     'wraps': tpl_wraps,
